@@ -271,12 +271,18 @@ func checkMain(args []string) int {
 		if r.Res.Verdict == Sat {
 			payload["model"] = trimModel(r.Res.Model)
 		}
+		var rout *ReplayOutcome
 		if prop.Replay != nil {
-			if out := prop.Replay(prog, r, replayDir); out != nil {
-				payload["replay"] = out
-				if out.Reproduced {
-					suffix = ""
-				}
+			rout = prop.Replay(prog, r, replayDir)
+		} else {
+			rout = genericReplay(o.Name)
+		}
+		if rout != nil {
+			payload["replay"] = rout
+			if rout.Reproduced && replayRelevant(o.Name, rout) {
+				suffix = ""
+				payload["failing_input"] = rout.Input
+				payload["observed_on_real_code"] = rout.Observed
 			}
 		}
 		path := writeReplay(o.Name, payload)
@@ -422,7 +428,21 @@ func replayMain(prop *Property, path string) int {
 		return 2
 	}
 	fmt.Printf("replay of %v\n", payload["obligation"])
-	if rp, ok := payload["replay"].(map[string]interface{}); ok {
+	if ob, ok := payload["obligation"].(string); ok {
+		if sp := replayFor(ob); sp != nil {
+			// re-run the canonical-instance replay against the tree as it is now
+			out := runReplay(sp)
+			if out != nil {
+				fmt.Printf("input: %s\n", out.Input)
+				if out.Reproduced && replayRelevant(ob, out) {
+					fmt.Printf("observed on the real code: %s\nreplay: the violation reproduces on the real code\n", out.Observed)
+					return 1
+				}
+				fmt.Printf("replay: did not reproduce (%s)\n", out.Output)
+			}
+		}
+	}
+	if rp, ok := payload["replay"].(map[string]interface{}); ok && rp["Kind"] == "cmd" {
 		if cmd, ok := rp["Cmd"].(string); ok && cmd != "" {
 			c := exec.Command("bash", "-c", cmd)
 			c.Stdout, c.Stderr = os.Stdout, os.Stderr
